@@ -47,7 +47,7 @@ def main():
         i = args.index("--needs")
         needs = args[i + 1]
         del args[i:i + 2]
-    seed_id, prop, src = args[0], args[1], pathlib.Path(args[2])
+    seed_id, prop, src = args[0], args[1], pathlib.Path(args[2]).resolve()
     patch = src / "patch.diff"
     demos = [p for p in src.iterdir() if p.name in ("demo.py", "test_demo.py")]
     assert patch.exists() and demos, "patch.diff and demo.py/test_demo.py required"
